@@ -108,6 +108,17 @@ def design(thorough):
                 vlib.tlc_must_fail(r, cfg)
             per[cfg] = {"distinct": r.distinct, "generated": r.generated, "wall_s": round(r.wall, 1),
                         "violated": r.what if r.violation else None}
+    if thorough:
+        # every action of the design modules must have fired (an action that never fires is a modelling hole)
+        import re
+        for mod, cfg in (("AggregatorMC", "Aggregator_exh.cfg"), ("ShutdownMC", "Shutdown_exh_drop.cfg")):
+            r = vlib.tlc(mod, cfg, workers=4, heap="4g", timeout=3000, deadlock=False, coverage=True)
+            vlib.tlc_must_pass(r, cfg + " (coverage)")
+            acts = re.findall(r"^<(\w+) line \d+, col \d+ to line \d+, col \d+ of module \w+>: (\d+):(\d+)", r.out, re.M)
+            dead = sorted({a for a, dist, gen in acts if int(gen) == 0})
+            if not acts or dead:
+                raise vlib.MachineryError("%s: actions never taken: %s" % (cfg, dead or "no coverage output"))
+            per[cfg + " coverage"] = {a: int(gen) for a, dist, gen in acts}
     return states, trans, per
 
 
@@ -225,7 +236,7 @@ def run(tier, v):
         vdrive, vpandora = fb.result()
         # process level runs concurrently with the design-level TLC runs (it is mostly waiting)
         sig_path = os.path.join(d, "aggsig.ndjson")
-        nsig = 300 if thorough else 12
+        nsig = 300 if thorough else 16
         fs = ex.submit(vlib.run_driver, vdrive, ["aggsig", "-vpandora", vpandora, "-out", sig_path, "-runs", str(nsig),
                                                   "-par", "6" if thorough else "4"], 3000)
         states, trans, per = fd.result()
